@@ -43,8 +43,10 @@ OPEN_STATEMENTS = [
     'CAR of the Spec; lattice coefficients (1/D)Z[i] with tol*D <= 1). The last two hold under per-run exact-regime flags '
     'the driver reports (exact-regime(qh): every pairing term has exactly the conjugate partner; exact-regime(dch): the '
     'two-body coefficients of normal_ordered(A) are real) because the source accepts a discrepancy / drops an imaginary '
-    'part below 1e-8; runs whose flag is False and ignore_incompatible_terms=True (terms dropped by design) are outside '
-    'the theorems: correspondence + Spec oracle + round trip only',
+    'part below 1e-8; both are also proved for ignore_incompatible_terms=True '
+    '(get_diagonal_coulomb_hamiltonian_sound_general / get_quadratic_hamiltonian_sound_general: the result denotes exactly '
+    'the terms of normal_ordered(A) of diagonal Coulomb resp. quadratic form); runs whose flag is False are outside the '
+    'theorems: correspondence + Spec oracle + round trip only',
     'get_fermion_operator(MajoranaOperator): proved for the generators (majorana_generator_sound); products and sums use '
     'FermionOperator `*` and the pruning `+=` (exact regime) and are covered by the Spec oracle '
     '(get_majorana_operator(FermionOperator) is proved at full strength: get_majorana_operator_sound)',
@@ -1697,9 +1699,364 @@ def stream_doci(ctx):
 
 # ------------------------------------------------------------------ entry points
 
+# ------------------------------------------------------------------ stream 10: read -> modify -> read histories
+
+def scale_pt(jpt, k):
+    """every tensor of an encoded PolynomialTensor times the integer / dyadic factor k"""
+    k = Fraction(k)
+
+    def h(x, depth):
+        if depth == 0:
+            a, b = from_gq(x)
+            return to_gq((a * k, b * k))
+        return [h(y, depth - 1) for y in x]
+    return {'n': jpt['n'], 'd': [[key, h(t, len(key))] for key, t in jpt['d']]}
+
+
+def enc_nbt(nn, obj):
+    return {'n': nn, 'd': [[list(k), enc_tensor(v)] for k, v in obj.n_body_tensors.items()]}
+
+
+def pt_agrees(jT, mT):
+    """equal to the Model's tensors, or to them with the two-body part halved (tree with F08c repaired)"""
+    c = canon_pt(jT)
+    return c == canon_pt(mT) or c == canon_pt(halve_two_body(mT))
+
+
+def stream_histories(ctx):
+    of = ctx.of
+    import copy
+    st = Stream('object-histories',
+                'read -> modify -> read-again sequences on ONE object without re-construction: a DOCIHamiltonian (1..3 '
+                'spatial orbitals, real dyadic arrays) is first read through its n_body_tensors-derived views (==, unary -, '
+                'str / iteration, PolynomialTensor(d.n_body_tensors), InteractionOperator from them, projected integrals, '
+                'qubit_operator), then its constant is changed without touching hc / hr1 / hr2 (d + s, d - s, d += s, d -= s, '
+                'd.constant = c), an entry of hc / hr1 / hr2 is edited in place, d is combined with / scaled by another operand, '
+                'or an object built from d.n_body_tensors is modified in place (*=, item assignment, rotate_basis); after every '
+                'step the views are read again and compared exactly with the Model evaluated on an independently tracked '
+                '(constant, hc, hr1, hr2), the stored arrays with the tracked ones, and operands other than the in-place target '
+                'with their snapshots; the same pattern on PolynomialTensor / InteractionOperator with tracked arrays; '
+                'distinct = distinct histories')
+    rng = rng_for(ctx.seed, 'c08-histories')
+    N = budget(ctx.tier, 70, 500)
+    if ctx.drift:
+        N = max(N, 110)
+    READS = ['tensors', 'neg', 'eq', 'str', 'cast', 'io', 'projected', 'qubit', 'iter']
+    NBT_READS = ['tensors', 'neg', 'eq', 'cast', 'io', 'str']
+    MODS = ['add_s', 'sub_s', 'iadd_s', 'isub_s', 'set_const', 'edit_hc', 'edit_hr1', 'edit_hr2', 'imul', 'idiv',
+            'iadd_d', 'isub_d', 'cast_imul', 'cast_setitem', 'cast_rotate', 'mul_s']
+
+    def dy():
+        return rng.randint(-8, 8) / 4
+
+    def enc_state(n, stt):
+        return {'n': n, 'c': to_gq(stt[0]), 'hc': enc_tensor(stt[1]), 'hr1': enc_tensor(stt[2]), 'hr2': enc_tensor(stt[3])}
+
+    plans, reqs = [], []
+    for i in range(N):
+        n = rng.choice([1, 2, 2, 3])
+        sym = rng.random() < 0.6
+        d0 = rand_doci(of, rng, n, sym)
+        state = [float(d0.constant), numpy.array(d0.hc, dtype=float), numpy.array(d0.hr1, dtype=float),
+                 numpy.array(d0.hr2, dtype=float)]
+        steps = []
+        L = rng.randint(4, 7)
+        # every history: read, modify, read(n_body_tensors-based), ...
+        kinds = []
+        for k in range(L):
+            kinds.append(('read', rng.choice(READS)))
+            kinds.append(('mod', rng.choice(MODS)))
+            kinds.append(('read', rng.choice(NBT_READS)))
+        cur = [state[0], state[1].copy(), state[2].copy(), state[3].copy()]
+        for what, kind in kinds:
+            par = None
+            new_state = None
+            if what == 'mod':
+                if kind in ('add_s', 'sub_s', 'iadd_s', 'isub_s', 'set_const'):
+                    par = dy() or 1.5
+                elif kind == 'mul_s':
+                    par = rng.choice([2.0, -1.0, 0.5])
+                elif kind in ('imul', 'idiv'):
+                    par = rng.choice([2.0, -1.0, 0.5, 4.0])
+                elif kind == 'edit_hc':
+                    par = (rng.randrange(n), dy())
+                elif kind in ('edit_hr1', 'edit_hr2'):
+                    par = (rng.randrange(n), rng.randrange(n), dy())
+                elif kind in ('iadd_d', 'isub_d'):
+                    o = rand_doci(of, rng, n, sym)
+                    par = [float(o.constant), numpy.array(o.hc, dtype=float), numpy.array(o.hr1, dtype=float),
+                           numpy.array(o.hr2, dtype=float)]
+                elif kind == 'cast_imul':
+                    par = rng.choice([3, -2, 0.5])
+                elif kind == 'cast_setitem':
+                    a, b = rng.randrange(2 * n), rng.randrange(2 * n)
+                    par = (((a, 1), (b, 0)), dy() or 2.0)
+                elif kind == 'cast_rotate':
+                    perm = list(range(2 * n))
+                    rng.shuffle(perm)
+                    par = perm
+                # the tracked value after the step
+                c_, hc_, h1_, h2_ = cur[0], cur[1].copy(), cur[2].copy(), cur[3].copy()
+                if kind == 'add_s':
+                    new_state = [c_ + par, hc_, h1_, h2_]
+                elif kind == 'sub_s':
+                    new_state = [c_ - par, hc_, h1_, h2_]
+                elif kind == 'mul_s':
+                    new_state = [c_ * par, hc_ * par, h1_ * par, h2_ * par]
+                elif kind == 'iadd_s':
+                    cur = [c_ + par, hc_, h1_, h2_]
+                elif kind == 'isub_s':
+                    cur = [c_ - par, hc_, h1_, h2_]
+                elif kind == 'set_const':
+                    cur = [par, hc_, h1_, h2_]
+                elif kind == 'edit_hc':
+                    hc_[par[0]] = par[1]
+                    cur = [c_, hc_, h1_, h2_]
+                elif kind == 'edit_hr1':
+                    h1_[par[0], par[1]] = par[2]
+                    cur = [c_, hc_, h1_, h2_]
+                elif kind == 'edit_hr2':
+                    h2_[par[0], par[1]] = par[2]
+                    cur = [c_, hc_, h1_, h2_]
+                elif kind == 'imul':
+                    cur = [c_ * par, hc_ * par, h1_ * par, h2_ * par]
+                elif kind == 'idiv':
+                    cur = [c_ / par, hc_ / par, h1_ / par, h2_ / par]
+                elif kind == 'iadd_d':
+                    cur = [c_ + par[0], hc_ + par[1], h1_ + par[2], h2_ + par[3]]
+                elif kind == 'isub_d':
+                    cur = [c_ - par[0], hc_ - par[1], h1_ - par[2], h2_ - par[3]]
+            jcur = enc_state(n, cur)
+            idx = {'tensors': len(reqs)}
+            reqs.append(dict(jcur, op='c08.doci_tensors'))
+            if what == 'read' and kind == 'projected':
+                idx['projected'] = len(reqs)
+                reqs.append(dict(jcur, op='c08.doci_projected'))
+            if what == 'read' and kind == 'qubit':
+                idx['qubit'] = len(reqs)
+                reqs.append(dict(jcur, op='c08.doci_qubit'))
+            if new_state is not None:
+                idx['new'] = len(reqs)
+                reqs.append(dict(enc_state(n, new_state), op='c08.doci_tensors'))
+            steps.append((what, kind, par, [cur[0], cur[1].copy(), cur[2].copy(), cur[3].copy()], jcur, idx))
+        plans.append((n, sym, state, steps))
+    ans = ctx.driver.run(reqs)
+
+    for n, sym, state, steps in plans:
+        d = of.DOCIHamiltonian(state[0], state[1].copy(), state[2].copy(), state[3].copy())
+        hist = []
+        case = {'f': 'DOCIHamiltonian history', 'n': n, 'start': enc_state(n, state), 'history': hist}
+        st.case(case)
+        st.count('history:n=%d,len=%d' % (n, len(steps)))
+        ok = True
+        for what, kind, par, cur, jcur, idx in steps:
+            if not ok:
+                break
+            hist.append([what, kind, par if not isinstance(par, list) or kind == 'cast_rotate' else 'doci'])
+            mT = {'n': 2 * n, 'd': ans[idx['tensors']]['d']}
+            st.count('%s:%s' % (what, kind))
+            try:
+                if what == 'mod':
+                    if kind in ('add_s', 'sub_s', 'mul_s'):
+                        r = d + par if kind == 'add_s' else (d - par if kind == 'sub_s' else d * par)
+                        mN = {'n': 2 * n, 'd': ans[idx['new']]['d']}
+                        if not pt_agrees(enc_nbt(2 * n, r), mN):
+                            ok = False
+                            st.violate('the result of d %s s does not denote the new value after an earlier read of d'
+                                       % {'add_s': '+', 'sub_s': '-', 'mul_s': '*'}[kind], case,
+                                       {'result': enc_nbt(2 * n, r), 'model': mN})
+                    elif kind == 'iadd_s':
+                        d += par
+                    elif kind == 'isub_s':
+                        d -= par
+                    elif kind == 'set_const':
+                        d.constant = par
+                    elif kind == 'edit_hc':
+                        d.hc[par[0]] = par[1]
+                    elif kind == 'edit_hr1':
+                        d.hr1[par[0], par[1]] = par[2]
+                    elif kind == 'edit_hr2':
+                        d.hr2[par[0], par[1]] = par[2]
+                    elif kind == 'imul':
+                        d *= par
+                    elif kind == 'idiv':
+                        d /= par
+                    elif kind in ('iadd_d', 'isub_d'):
+                        o = of.DOCIHamiltonian(par[0], par[1].copy(), par[2].copy(), par[3].copy())
+                        snap = canon_doci(enc_doci(o))
+                        if kind == 'iadd_d':
+                            d += o
+                        else:
+                            d -= o
+                        if canon_doci(enc_doci(o)) != snap:
+                            ok = False
+                            st.violate('the right operand of %s was modified' % kind, case, {})
+                    else:
+                        T0 = d.n_body_tensors
+                        cast = of.PolynomialTensor(T0) if rng.random() < 0.5 else \
+                            of.InteractionOperator(T0[()], T0[(1, 0)], T0[(1, 1, 0, 0)])
+                        if kind == 'cast_imul':
+                            cast *= par
+                            if not pt_agrees(enc_nbt(2 * n, cast), scale_pt(mT, par)):
+                                ok = False
+                                st.violate('a tensor built from d.n_body_tensors, scaled in place, is not the scaled tensor',
+                                           case, {'cast': enc_nbt(2 * n, cast)})
+                        elif kind == 'cast_setitem':
+                            cast[par[0]] = par[1]
+                        else:
+                            R = numpy.zeros((2 * n, 2 * n))
+                            for a_, b_ in enumerate(par):
+                                R[a_, b_] = 1.0
+                            cast.rotate_basis(R)
+                else:
+                    if kind == 'tensors':
+                        if not pt_agrees(enc_nbt(2 * n, d), mT):
+                            ok = False
+                            st.violate('n_body_tensors does not reflect the current (constant, hc, hr1, hr2)', case,
+                                       {'tensors': enc_nbt(2 * n, d), 'model': mT})
+                    elif kind == 'neg':
+                        if not pt_agrees(enc_nbt(2 * n, -d), scale_pt(mT, -1)):
+                            ok = False
+                            st.violate('-d does not reflect the current (constant, hc, hr1, hr2)', case,
+                                       {'neg': enc_nbt(2 * n, -d), 'model': mT})
+                    elif kind == 'eq':
+                        same = of.DOCIHamiltonian(cur[0], cur[1].copy(), cur[2].copy(), cur[3].copy())
+                        other = of.DOCIHamiltonian(cur[0] + 1.0, cur[1].copy(), cur[2].copy(), cur[3].copy())
+                        if not (d == same) or (d != same) or (d == other) or not (d != other):
+                            ok = False
+                            st.violate('== / != do not reflect the current (constant, hc, hr1, hr2)', case,
+                                       {'eq_same': bool(d == same), 'eq_other_constant': bool(d == other)})
+                    elif kind in ('str', 'iter'):
+                        keys = list(d)
+                        try:
+                            text = str(d)
+                        except IndexError:
+                            # __str__ goes through __getitem__, which refuses the non-DOCI entries of the tensors
+                            st.count('str:IndexError')
+                            text = ''
+                        first = text.split('\n')[0] if text else ''
+                        if text and cur[0] != 0 and (not first.startswith('()') or float(first.split()[-1]) != cur[0]):
+                            ok = False
+                            st.violate('str(d) does not show the current constant', case, {'first_line': first})
+                        if cur[0] != 0 and () not in keys:
+                            ok = False
+                            st.violate('iteration over d does not yield the constant term', case, {})
+                    elif kind == 'cast':
+                        if not pt_agrees(enc_nbt(2 * n, of.PolynomialTensor(d.n_body_tensors)), mT):
+                            ok = False
+                            st.violate('PolynomialTensor(d.n_body_tensors) does not reflect the current value', case,
+                                       {'model': mT})
+                    elif kind == 'io':
+                        T0 = d.n_body_tensors
+                        io = of.InteractionOperator(T0[()], T0[(1, 0)], T0[(1, 1, 0, 0)])
+                        if not pt_agrees(enc_nbt(2 * n, io), mT):
+                            ok = False
+                            st.violate('InteractionOperator from d.n_body_tensors does not reflect the current value', case,
+                                       {'model': mT})
+                    elif kind == 'projected':
+                        one_p, two_p = d.get_projected_integrals()
+                        m_p = ans[idx['projected']]
+                        if canon_tensor(enc_tensor(one_p), 2) != canon_tensor(m_p['one'], 2) or \
+                                canon_tensor(enc_tensor(two_p), 4) != canon_tensor(m_p['two'], 4):
+                            ok = False
+                            st.violate('get_projected_integrals does not reflect the current (hc, hr1, hr2)', case, {})
+                    elif kind == 'qubit':
+                        jq = drop_zero(enc_op('qubit', d.qubit_operator.terms))
+                        if canon_op_json(jq) != canon_op_json(drop_zero(ans[idx['qubit']])):
+                            ok = False
+                            st.violate('qubit_operator does not reflect the current (constant, hc, hr1, hr2)', case,
+                                       {'qubit_operator': jq})
+                # the object itself: stored arrays and the denoted tensors after EVERY step
+                if ok and canon_doci(enc_doci(d)) != canon_doci(jcur):
+                    ok = False
+                    st.violate('the stored (constant, hc, hr1, hr2) differ from the tracked value after %s:%s' % (what, kind),
+                               case, {'stored': enc_doci(d), 'tracked': jcur})
+                if ok and what == 'mod' and not pt_agrees(enc_nbt(2 * n, d), mT):
+                    ok = False
+                    st.violate('after %s the n_body_tensors of d do not denote its current value' % kind, case,
+                               {'tensors': enc_nbt(2 * n, d), 'model': mT})
+            except Exception as e:
+                ok = False
+                st.violate('unexpected exception %s: %s in a history' % (errname(e), e), case, {})
+
+    # the same pattern on PolynomialTensor / InteractionOperator with tracked arrays
+    for i in range(N):
+        n = rng.choice([1, 2, 2])
+        cls = rng.choice(['PolynomialTensor', 'InteractionOperator'])
+        tr = {(): float(dy()), (1, 0): rand_real(rng, (n, n)), (1, 1, 0, 0): rand_real(rng, (n,) * 4)}
+
+        def build(t):
+            if cls == 'PolynomialTensor':
+                return of.PolynomialTensor({k: (v.copy() if isinstance(v, numpy.ndarray) else v) for k, v in t.items()})
+            return of.InteractionOperator(t[()], t[(1, 0)].copy(), t[(1, 1, 0, 0)].copy())
+
+        def same_as(obj, t, factor=1.0):
+            T = obj.n_body_tensors
+            return set(T) == set(t) and all(numpy.array_equal(numpy.asarray(T[k]), numpy.asarray(t[k]) * factor) for k in t)
+        obj = build(tr)
+        hist = []
+        case = {'f': cls + ' history', 'n': n, 'history': hist}
+        st.case(case)
+        st.count('history:' + cls)
+        try:
+            for k in range(rng.randint(3, 5)):
+                rd = rng.choice(['neg', 'eq', 'str', 'copy'])
+                hist.append(['read', rd])
+                if rd == 'neg' and not same_as(-obj, tr, -1.0):
+                    st.violate('-t does not reflect the current tensors', case, {})
+                    break
+                if rd == 'eq' and (not (obj == build(tr)) or (obj != build(tr))):
+                    st.violate('== does not reflect the current tensors', case, {})
+                    break
+                if rd == 'str':
+                    str(obj)
+                if rd == 'copy':
+                    cp = copy.deepcopy(obj)
+                md = rng.choice(['const', 'setitem', 'imul', 'edit', 'iadd', 'rotate_copy'])
+                hist.append(['mod', md])
+                if md == 'const':
+                    c = dy()
+                    obj.constant = c
+                    tr[()] = c
+                elif md == 'setitem':
+                    a, b, v = rng.randrange(n), rng.randrange(n), dy()
+                    obj[((a, 1), (b, 0))] = v
+                    tr[(1, 0)][a, b] = v
+                elif md == 'imul':
+                    f = rng.choice([2.0, -1.0, 0.5])
+                    obj *= f
+                    tr = {k2: v2 * f for k2, v2 in tr.items()}
+                elif md == 'edit':
+                    a, b, v = rng.randrange(n), rng.randrange(n), dy()
+                    obj.n_body_tensors[(1, 0)][a, b] = v
+                    tr[(1, 0)][a, b] = v
+                elif md == 'iadd':
+                    o_t = {(): float(dy()), (1, 0): rand_real(rng, (n, n)), (1, 1, 0, 0): rand_real(rng, (n,) * 4)}
+                    o = build(o_t)
+                    obj += o
+                    tr = {k2: tr[k2] + o_t[k2] for k2 in tr}
+                    if not same_as(o, o_t):
+                        st.violate('the right operand of += was modified', case, {})
+                        break
+                else:
+                    cp = copy.deepcopy(obj)
+                    cp *= 3.0
+                    cp.rotate_basis(numpy.eye(n)[::-1])
+                if not same_as(obj, tr):
+                    st.violate('after %s the tensors differ from the tracked arrays' % md, case, {})
+                    break
+                if not same_as(-obj, tr, -1.0) or not (obj == build(tr)):
+                    st.violate('after %s unary - / == do not reflect the current tensors' % md, case, {})
+                    break
+        except Exception as e:
+            st.violate('unexpected exception %s: %s in a history' % (errname(e), e), case, {})
+    return st
+
+
+
 def run(ctx):
     return [stream_arith(ctx), stream_iter(ctx), stream_conv(ctx), stream_maj(ctx), stream_rot(ctx),
-            stream_types(ctx), stream_state(ctx), stream_bands(ctx), stream_doci(ctx)]
+            stream_types(ctx), stream_state(ctx), stream_bands(ctx), stream_doci(ctx), stream_histories(ctx)]
 
 
 def classify(v):
